@@ -41,6 +41,22 @@ def run(run, replay=None):
         if n in (1, 300):
             run.sample({'shape': shape, 'serialised': e['status'], 'bytes': len(e['bytes']),
                         'ops': [(x['k'], x['name']) for x in h.ev][:12]})
+    # every tree of MC_Dom's space, built with the real object model, serialised, parsed, serialised
+    from harness import gen
+    mtrees = gen.behaviours('MC_Dom', {'Scope': 1 if quick else 2}, invariant='Emit', run=run,
+                            cfg_extra='CONSTANT Tables <- NoTables\n', timeout=1200)
+    if quick:
+        mtrees = rng.sample(mtrees, min(len(mtrees), 80))
+    for t in mtrees:
+        h = domdriver.History(cat)
+        tid = domgen.build_from_model(h, t)
+        e = h.ser(tid)
+        if e['status'] == 'ok':
+            h.parse(bytes(e['bytes']))
+            h.ser(len(h.trees))
+        traces.append(h.trace(len(traces), CHK))
+        run.count(('model-tree', repr(t)), nontrivial=True)
+    run.notes['trees_from_MC_Dom'] = len(mtrees)
     can = _dcommon.dom_canaries(traces, rng)
     v = run.judge('Trace_Dom', traces + can, cat.tables(), canary_ids=[c['id'] for c in can], describe=describe)
     run.notes['serialised_ok'] = sum(1 for t in traces if any(e['k'] == 'parse' for e in t['ev']))
